@@ -285,58 +285,67 @@ end
 
 /-! ## the diagnostic reads of the error path -/
 
-def FromTree (t : Hist) : Prop := ∀ x ∈ t, ∃ s1, x.2 = RFS.answer s1 x.1
+theorem Quiet.nil : Quiet [] := fun _ hx => by cases hx
 
-theorem FromTree.append_left {a b : Hist} (h : FromTree (a ++ b)) : FromTree a :=
-  fun x hx => h x (List.mem_append_left _ hx)
+theorem Quiet.append {a b : Hist} (ha : Quiet a) (hb : Quiet b) : Quiet (a ++ b) := fun x hx =>
+  (List.mem_append.mp hx).elim (ha x) (hb x)
 
-theorem freeze_true (fuel : Nat) (fd : Fd) {t : Hist} {b : Bool}
-    (hr : RunsT (Sys.freeze (fuel + 1) fd) t b) (hk : FromTree t) : b = true ∧ Quiet t := by
-  rw [Sys.freeze.eq_2] at hr
+theorem Quiet.cons {c : Call} {r : Resp} {t : Hist} (hc : quiet c = true) (ht : Quiet t) :
+    Quiet ((c, r) :: t) := fun x hx => by
+  rcases List.mem_cons.mp hx with rfl | hx
+  · exact hc
+  · exact ht x hx
+
+/-- whatever the probes of the thread-self spellings are answered: a failing one just moves
+on to the next, no error value is built -/
+theorem freeze_probe_quiet : ∀ (cands : List Bytes) {t : Hist} {b : Bytes},
+    RunsT (Sys.freeze.probe cands) t b → Quiet t := by
+  intro cands
+  induction cands with
+  | nil =>
+    intro t b hr
+    rw [Sys.freeze.probe.eq_1] at hr
+    obtain ⟨rfl, _⟩ := RunsT.ret_inv hr
+    exact Quiet.nil
+  | cons cand rest ih =>
+    intro t b hr
+    rw [Sys.freeze.probe.eq_2] at hr
+    obtain ⟨r, t', rfl, hr'⟩ := RunsT.call_inv hr
+    refine Quiet.cons rfl ?_
+    split at hr'
+    · exact ih hr'
+    · obtain ⟨rfl, _⟩ := RunsT.ret_inv hr'
+      exact Quiet.nil
+
+theorem freeze_quiet (fd : Fd) {t : Hist} {u : Unit} (hr : RunsT (Sys.freeze fd) t u) : Quiet t := by
+  unfold Sys.freeze at hr
   obtain ⟨t1, t2, tid, rfl, h1, h2⟩ := RunsT.bind_inv hr
   unfold Sys.gettid at h1
   obtain ⟨r1, t1', rfl, h1'⟩ := RunsT.call_inv h1
   have ht1' : t1' = [] := by
     split at h1' <;> exact (RunsT.ret_inv h1').1
   subst ht1'
-  obtain ⟨t3, t4, pr, rfl, h3, h4⟩ := RunsT.bind_inv h2
-  unfold Sys.threadSelfCandidates at h3
-  rw [Sys.freeze.probe.eq_2] at h3
-  obtain ⟨r3, t3', rfl, h3'⟩ := RunsT.call_inv h3
-  have hr3 : r3 = .nums [S_IFLNK ||| 0o777, 0, 3, 5] := by
-    obtain ⟨w1, hw1⟩ := hk (_, r3) (List.mem_append_right _ (List.mem_append_left _ List.mem_cons_self))
-    exact hw1
-  subst hr3
-  simp only [] at h3'
-  obtain ⟨rfl, rfl⟩ := RunsT.ret_inv h3'
-  simp only [] at h4
+  obtain ⟨t3, t4, base, rfl, h3, h4⟩ := RunsT.bind_inv h2
+  refine (Quiet.cons rfl Quiet.nil).append ((freeze_probe_quiet _ h3).append ?_)
   split at h4
-  · obtain ⟨rfl, rfl⟩ := RunsT.ret_inv h4
-    refine ⟨rfl, ?_⟩
-    intro x hx
-    simp at hx
-    rcases hx with rfl | rfl <;> rfl
+  · obtain ⟨rfl, _⟩ := RunsT.ret_inv h4
+    exact Quiet.nil
   · obtain ⟨r5, t5, rfl, h5⟩ := RunsT.call_inv h4
-    obtain ⟨rfl, rfl⟩ := RunsT.ret_inv h5
-    refine ⟨rfl, ?_⟩
-    intro x hx
-    simp at hx
-    rcases hx with rfl | rfl | rfl <;> rfl
+    obtain ⟨rfl, _⟩ := RunsT.ret_inv h5
+    exact Quiet.cons rfl Quiet.nil
 
 theorem failWith_tree {α : Type} (d : Fd) (e : Nat) {t : Hist} {x : Except Err α}
-    (hr : RunsT (Sys.failWith [d] e : M α) t x) (hk : FromTree t) : x = .error (.os e) ∧ Quiet t := by
+    (hr : RunsT (Sys.failWith [d] e : M α) t x) : x = .error (.os e) ∧ Quiet t := by
   unfold Sys.failWith Sys.failWith.go at hr
-  obtain ⟨t1, t2, ok, rfl, h1, h2⟩ := RunsT.bind_inv hr
-  obtain ⟨hok, hn⟩ := freeze_true 2 d h1 hk.append_left
-  subst hok
-  simp only [↓reduceIte] at h2
+  obtain ⟨t1, t2, u, rfl, h1, h2⟩ := RunsT.bind_inv hr
+  have hn := freeze_quiet d h1
   unfold Sys.failWith.go at h2
   obtain ⟨rfl, rfl⟩ := RunsT.ret_inv h2
   exact ⟨rfl, by simpa using hn⟩
 
 theorem failWith_run {α : Type} {s s' : RFS} {d : Fd} {e : Nat} {t : Hist} {x : Except Err α}
     (h : Run (Sys.failWith [d] e : M α) s t x s') : x = .error (.os e) ∧ Removes s s' ∧ ownRemovals t = [] := by
-  obtain ⟨hx, hq⟩ := failWith_tree d e h.1 h.2.answers
+  obtain ⟨hx, hq⟩ := failWith_tree d e h.1
   exact ⟨hx, hq.valid h.2, hq.own⟩
 
 /-! ## the wrappers -/
